@@ -628,6 +628,8 @@ def x3c_container(text, log):
     t2 = re.sub(r"\bcfb::CompoundFile<F>", "VComp", text)
     t2 = re.sub(r"\bPackage<F>", "Package", t2)
     t2 = re.sub(r"\bcfb::Entries<'a, F>", "VEntries", t2)
+    t2 = re.sub(r"\bcfb::Stream<F>", "VStream", t2)
+    t2 = re.sub(r"\b(StreamReader|StreamWriter)<F>", r"\1", t2)
     t2 = re.sub(r"\bStreams<'a, F(?:: 'a)?>", "Streams", t2)
     # closed world: FinishImpl is the only implementor of the private trait Finish
     t2 = re.sub(r"\bBox<dyn Finish<F>>", "Box<FinishImpl>", t2)
@@ -968,6 +970,7 @@ class Extractor:
                 # the type parameter F of Package<F> disappears with the container model
                 header = re.sub(r"^<F[^>]*>\s*", "", header).replace("Package<F>", "Package")
                 header = re.sub(r"^<'a, F: 'a>\s*", "", header).replace("Streams<'a, F>", "Streams")
+                header = re.sub(r"\b(StreamReader|StreamWriter)<F>", r"\1", header)
             # a trait impl also needs its associated types / consts
             (k, name, start, end, kw) = cands[0]
             b = find_body_open(masked, kw)
